@@ -459,6 +459,15 @@ pub fn run(sc: &Scenario) -> RunResult {
     }
     let src0 = sc.versions[0].source();
     let path0 = sc.versions[0].path();
+    // "// @verif-rewrite-wav <copy> <at> <asset>": play a copy of the asset, re-render it at `at`
+    let rewrite: Option<(String, u64, Vec<u8>)> = src0.lines().next().and_then(|l| {
+        let mut it = l.strip_prefix("// @verif-rewrite-wav ")?.split(' ');
+        let (copy, at, asset) = (it.next()?.to_string(), it.next()?.parse().ok()?, it.next()?);
+        let bytes = std::fs::read(asset).ok()?;
+        std::fs::write(&copy, &bytes).ok()?;
+        Some((copy, at, bytes))
+    });
+    let mut rewritten = false;
     let started = crate::util::guarded(|| Sut::start(sc.backend, &src0, path0.clone(), &opts, sc.retire))
         .unwrap_or_else(|p| Err(format!("panic: {p}")));
     let mut sut = match started {
@@ -625,6 +634,25 @@ pub fn run(sc: &Scenario) -> RunResult {
             zero_frame_run = 0;
         }
         cb += 1;
+        if let Some((copy, at, bytes)) = &rewrite {
+            if !rewritten && t >= *at {
+                // another take: every sample negated (f32 data after the 80-byte header), with a
+                // later modification time (a fixed one: no clock is read inside a run)
+                let mut b = bytes.clone();
+                let start = b.len().saturating_sub(400);
+                let mut i = start + 3;
+                while i < b.len() {
+                    b[i] ^= 0x80;
+                    i += 4;
+                }
+                let _ = std::fs::write(copy, &b);
+                if let Ok(f) = std::fs::File::options().write(true).open(copy) {
+                    let _ = f.set_modified(std::time::UNIX_EPOCH + std::time::Duration::from_secs(1_900_000_000 + *at));
+                }
+                rewritten = true;
+                res.bump("sound_file_re_rendered_while_running");
+            }
+        }
         // ---- non-RT side: saves, compile service (FIFO, blocking), delivery ----
         while saves.front().is_some_and(|s| s.at <= t) {
             let s = saves.pop_front().unwrap();
@@ -680,6 +708,12 @@ pub fn run(sc: &Scenario) -> RunResult {
                             res.bump("swaps_back_to_back_without_a_dsp_call");
                         }
                         last_swap_at = Some(t);
+                        if rewritten {
+                            // a fresh compilation may legitimately load the new take: what was to
+                            // be judged is the time between the re-rendering and this swap
+                            res.bump("runs_ended_at_the_swap_after_a_re_rendered_take");
+                            break 'outer;
+                        }
                         if state_nonzero_seen {
                             res.bump("swaps_with_live_state");
                         }
@@ -1210,12 +1244,25 @@ pub fn gen_c06_sampler(seed: u64) -> Scenario {
     let root = Rng::new(seed);
     let mut r = root.sub("sampler");
     let mut r_sched = root.sub("schedule");
-    let wav = format!("{}/crates/lib/plugins/mimium-symphonia/tests/assets/count_100_by_0_01_f32_48000Hz.wav", repo_root());
+    let asset = format!("{}/crates/lib/plugins/mimium-symphonia/tests/assets/count_100_by_0_01_f32_48000Hz.wav", repo_root());
+    // half of these sessions play a copy of the file that is RE-RENDERED ON DISK while the program
+    // runs (a directive in the first line of the source tells `run` where and when): until the
+    // next swap is applied, the running program must not notice
+    let mut r_take = root.sub("re-rendered-take");
+    let rewrite_at = if r_take.chance(1, 2) { Some(r_take.range(1, 40)) } else { None };
+    let wav = match rewrite_at {
+        Some(_) => crate::sut::scratch_dir().join(format!("take-{seed:016x}.wav")).display().to_string(),
+        None => asset.clone(),
+    };
     let step = *r.pick(&[1.0, 1.0, 0.5, 2.0]);
     let src = match r.below(3) {
         0 => format!("fn counter(){{\n  self + {step:?}\n}}\nfn dsp(){{\n  let sampler = Sampler_mono!(\"{wav}\")\n  let player = sampler.player\n  player(counter() - {step:?})\n}}\n"),
         1 => format!("fn counter(inc){{\n  self + inc\n}}\nfn dsp(){{\n  let a = Sampler_mono!(\"{wav}\")\n  let b = Sampler_mono!(\"{wav}\")\n  let pa = a.player\n  let pb = b.player\n  pa(counter({step:?})) + pb(counter(1.0)) * 2.0\n}}\n"),
         _ => format!("fn counter(){{\n  self + {step:?}\n}}\nfn dsp(){{\n  let sampler = Sampler_mono!(\"{wav}\")\n  let player = sampler.player\n  player(mem(counter())) + sampler.length * 0.001\n}}\n"),
+    };
+    let src = match rewrite_at {
+        Some(at) => format!("// @verif-rewrite-wav {wav} {at} {asset}\n{src}"),
+        None => src,
     };
     let n_swaps = r.range(1, 5) as usize;
     let mut versions = vec![Version::Raw { src: src.clone(), path: None }];
